@@ -28,6 +28,10 @@ def rescale_box(
     min = jnp.broadcast_to(jnp.asarray(min, dtype=float), box.shape)
     max = jnp.broadcast_to(jnp.asarray(max, dtype=float), box.shape)
 
+    # An unbounded side cannot be rescaled onto a bounded one (or the other way
+    # round): the gradient would be 0 and the intercept NaN.
+    assert jnp.all((min == box.low)[jnp.isinf(min) | jnp.isinf(box.low)])
+    assert jnp.all((max == box.high)[jnp.isinf(max) | jnp.isinf(box.high)])
     assert jnp.all(min <= max)
     assert jnp.all(box.low <= box.high)
 
